@@ -148,6 +148,13 @@ def _unmatched_samples(repo):
     S[(LN, "as_lexpr")] = run(LN, "as_lexpr", ["a string is not an expression"])
     S[(LN, "as_statement")] = run(LN, "as_statement", ["a string is not a statement"])
     S[(LN, "ufl_to_lnodes")] = run(LN, "ufl_to_lnodes", lambda it: [Node("UnknownUflOperator", name="op")], lambda it: it.overrides.__setitem__("_ufl_call_lookup", {}))
+    REC = "ffcx.ir.analysis.reconstruct"
+    S[(REC, "reconstruct")] = run(REC, "reconstruct", lambda it: [Node("UnknownUflOperator", name="op")], lambda it: it.overrides.__setitem__("_reconstruct_call_lookup", {}))
+    S[("ffcx.ir.analysis.valuenumbering", "ValueNumberer.compute_symbols")] = run(
+        "ffcx.ir.analysis.valuenumbering", "ValueNumberer.compute_symbols",
+        lambda it: [Node("ValueNumberer", symbol_count=0, G=Node("ExpressionGraph", nodes={0: {"expression": Node("UnknownUflOperator", name="op", _ufl_is_terminal_=False,
+                                                                                                                     ufl_operands=())}}, out_edges={0: []}),
+                         V_symbols=[None], call_lookup={})])
     S[("ffcx.ir.representation", "basix_cell_from_string")] = run("ffcx.ir.representation", "basix_cell_from_string", ["dodecahedron"])
     S[("ffcx.codegeneration.utils", "dtype_to_scalar_dtype")] = run("ffcx.codegeneration.utils", "dtype_to_scalar_dtype", ["bool"])
     S[("ffcx.analysis", "_has_custom_integrals")] = run("ffcx.analysis", "_has_custom_integrals", ["neither an integral nor a form nor a list"], ufl_measures)
